@@ -426,6 +426,14 @@ pub fn axis<T: Flt>(src: &mut Src, n: usize, class: AxisClass, max_ratio_log2: O
             *v = i as f64;
         }
     }
+    // a knot at zero carries the negative sign in 1 of 4 axes that have one (-0.0 == 0.0, the order is unaffected)
+    if class != AxisClass::Index {
+        if let Some(z) = x.iter().position(|v| *v == 0.0) {
+            if src.chance(1, 4) {
+                x[z] = -0.0;
+            }
+        }
+    }
     if let Some(b) = max_ratio_log2 {
         // enforce the bound after rounding; fall back to a uniform dyadic axis if violated
         let hs: Vec<f64> = x.windows(2).map(|w| w[1] - w[0]).collect();
@@ -517,7 +525,15 @@ pub fn query_in_range<T: Flt>(src: &mut Src, x: &[f64]) -> (f64, QClass) {
         v.f()
     };
     let q = match class {
-        QClass::Knot => x[src.below(n as u64) as usize],
+        QClass::Knot => {
+            let k = x[src.below(n as u64) as usize];
+            // a knot at zero is also asked for with the other sign of zero
+            if k == 0.0 && src.bool() {
+                -k
+            } else {
+                k
+            }
+        }
         QClass::KnotUp => clamp(T::of(x[src.below(n as u64) as usize]).up()),
         QClass::KnotDown => clamp(T::of(x[src.below(n as u64) as usize]).down()),
         QClass::First => x[0],
